@@ -42,10 +42,11 @@ CONSTANTS
   Msgs,        \* [Side -> Seq([ch |-> Nat, n |-> Nat])] messages each side's application submits
   InitTsnA, InitTsnB,   \* sets of initial TSNs
   MaxRtx, MaxT1, Win,
+  RtxBurst,    \* chunks a T3 expiry marks for retransmission (the rest is only re-timed); the code's RETRANSMIT_BURST
   Rwnd,        \* receive window in chunks (buffered out-of-order chunks use it up); a large value switches it off
   DelaySack,   \* TRUE: an in-order DATA chunk may be acknowledged later (delayed-SACK timer)
   \* Deviations (declared in SctpOps): subset of {"SetupOverwrite", "DataBeforeEstablished",
-  \*   "FwdPlainCompare", "AdvPointWrongSpace", "FwdNotRetransmitted", "PartialAbandon", "StaleSackUpdatesRwnd"}
+  \*   "FwdPlainCompare", "AdvPointWrongSpace", "FwdNotRetransmitted", "PartialAbandon", "StaleSackUpdatesRwnd", "T3OnlyInFlightOrMarked"}
   NetMode, Budget,
   Props        \* properties whose rules are switched on
 
@@ -75,13 +76,14 @@ VARIABLES
   advPt,     \* [Side -> Advanced.Peer.Ack.Point]
   fwd,       \* [Side -> last FORWARD-TSN sent: [on, fr (stream / ssn of the skipped message), n]]
   net, wire, held, lastDel, cnt, faults, budget,
+  outage,    \* [Side -> [on, t]]: every DATA packet of that side is lost until a retransmission of chunk t passes
   hole,      \* [Side -> relative TSNs of that side's DATA chunks every transmission of which is lost]
   peerW,     \* [Side -> the peer's advertised window as last learnt (chunks)]
   since,     \* [Side -> new chunks injected since the last SACK that was taken into account]
   sackDue    \* [Side -> a delayed SACK is pending]
 
 vars == <<st, t1, t1cnt, itsn, answered, next, rx, sentQ, outQ, sub, ssnOut, deliv, opens, ackPt, advPt, fwd,
-          net, wire, held, lastDel, cnt, faults, budget, hole, peerW, since, sackDue>>
+          net, wire, held, lastDel, cnt, faults, budget, hole, outage, peerW, since, sackDue>>
 
 Ordered == [c \in ChanIds |-> Chans[c].ord]
 
@@ -110,7 +112,10 @@ Stamp(p) == IF NetMode = "fifo" /\ p.k # "DATA"
 Count(c, p) == [c EXCEPT ![p.src][p.k] = @ + 1,
                          ![p.src]["GSACK"] = IF IsGapSack(p) THEN @ + 1 ELSE @,
                          ![p.src]["ZSACK"] = IF IsZeroSack(p) THEN @ + 1 ELSE @]
-Holed(p) == p.k = "DATA" /\ RelTsn(p) \in hole[p.src]
+\* an outage swallows every DATA packet except a retransmission of the chunk it started with (which ends it)
+EndsOutage(p) == p.k = "DATA" /\ outage[p.src].on /\ RelTsn(p) = outage[p.src].t /\ p.o >= 2
+\* (the ending retransmission first switches the outage off - OutageEnds - and is then handed over)
+Holed(p) == p.k = "DATA" /\ (RelTsn(p) \in hole[p.src] \/ outage[p.src].on)
 \* packets that may be handed to side `to` now
 Avail(to) ==
   IF NetMode = "set" THEN {p \in net : p.src = Peer(to)}
@@ -136,7 +141,7 @@ NetSame == UNCHANGED <<net, wire, held, lastDel, cnt>>
 \* fifo mode: retransmission timers are long compared with the network latency, so they fire only
 \* when nothing is in flight (a packet taken aside by Hold is delayed beyond the timer)
 TimersMayFire == wire["A"] = <<>> /\ wire["B"] = <<>>
-NoFaultW == UNCHANGED <<faults, budget, hole>>
+NoFaultW == UNCHANGED <<faults, budget, hole, outage>>
 WinSame == UNCHANGED <<peerW, since, sackDue>>
 NoFault == NoFaultW /\ WinSame
 PrSame == UNCHANGED <<ackPt, advPt, fwd>>
@@ -167,6 +172,7 @@ Init ==
   /\ faults = <<>>
   /\ budget = Budget
   /\ hole = [s \in Side |-> {}]
+  /\ outage = [s \in Side |-> [on |-> FALSE, t |-> 0]]
   /\ peerW = [s \in Side |-> 0]
   /\ since = [s \in Side |-> 0]
   /\ sackDue = [s \in Side |-> FALSE]
@@ -282,19 +288,40 @@ TransmitNew(s) ==
   /\ since' = IF WOn THEN [since EXCEPT ![s] = @ + 1] ELSE since
   /\ LET f == Head(outQ[s])
          t == next[s]
-     IN /\ sentQ' = [sentQ EXCEPT ![s] = @ \cup {[tsn |-> t, fr |-> f, n |-> 1, acked |-> FALSE, ab |-> FALSE]}]
+     IN /\ sentQ' = [sentQ EXCEPT ![s] = @ \cup {[tsn |-> t, fr |-> f, n |-> 1, acked |-> FALSE, ab |-> FALSE, mk |-> FALSE, inf |-> TRUE]}]
         /\ next' = [next EXCEPT ![s] = Inc(t, M)]
         /\ NetSend(s, DataPkt(s, t, f, 1))
   /\ outQ' = [outQ EXCEPT ![s] = Tail(@)]
   /\ UNCHANGED <<st, t1, t1cnt, itsn, answered, rx, sub, ssnOut, deliv, opens>> /\ PrSame /\ NoFaultW /\ UNCHANGED <<peerW, sackDue>>
 
-Rtx(s) ==
+\* handle_timeout: the T3-rtx timer expires for an unacknowledged chunk.  Every outstanding chunk stops
+\* counting as in flight; the first RtxBurst of them (in TSN order) are marked for retransmission, the others
+\* are only re-timed and wait for a later expiry.  The timer runs for every unacknowledged chunk; a variant
+\* that lets it run only for chunks in flight or marked never comes back for the re-timed ones: deviation
+\* "T3OnlyInFlightOrMarked".
+RECURSIVE LowestN(_, _)
+LowestN(q, k) == IF k = 0 \/ q = {} THEN {}
+                 ELSE LET y == CHOOSE y \in q : \A z \in q : ~TsnGT(y.tsn, z.tsn)
+                      IN {y} \cup LowestN(q \ {y}, k - 1)
+T3Expire(s) ==
   /\ NetMode = "fifo"            \* in "set" mode the first copy is still deliverable
   /\ TimersMayFire
-  /\ \E x \in Outstanding(sentQ[s]) :
-       /\ x.n < MaxRtx
-       /\ sentQ' = [sentQ EXCEPT ![s] = (@ \ {x}) \cup {[x EXCEPT !.n = @ + 1]}]
-       /\ NetSend(s, DataPkt(s, x.tsn, x.fr, x.n + 1))
+  /\ LET out == Outstanding(sentQ[s])
+         cand == {x \in out : x.n < MaxRtx}
+     IN /\ cand # {} /\ ~(\E x \in out : x.mk)
+        /\ ("T3OnlyInFlightOrMarked" \in Deviations => \E x \in out : x.inf \/ x.mk)
+        /\ LET marked == LowestN(cand, RtxBurst)
+           IN sentQ' = [sentQ EXCEPT ![s] = {IF x \in out THEN [x EXCEPT !.inf = FALSE, !.mk = (x \in marked)] ELSE x : x \in @}]
+  /\ UNCHANGED <<st, t1, t1cnt, itsn, answered, next, rx, outQ, sub, ssnOut, deliv, opens>> /\ PrSame /\ NetSame /\ NoFault
+
+\* transmit(), retransmit phase: marked chunks leave in TSN order
+Rtx(s) ==
+  /\ NetMode = "fifo"
+  /\ LET mkd == {x \in Outstanding(sentQ[s]) : x.mk}
+     IN /\ mkd # {}
+        /\ LET x == CHOOSE y \in mkd : \A z \in mkd : ~TsnGT(y.tsn, z.tsn)
+           IN /\ sentQ' = [sentQ EXCEPT ![s] = (@ \ {x}) \cup {[x EXCEPT !.n = @ + 1, !.mk = FALSE, !.inf = TRUE]}]
+              /\ NetSend(s, DataPkt(s, x.tsn, x.fr, x.n + 1))
   /\ UNCHANGED <<st, t1, t1cnt, itsn, answered, next, rx, outQ, sub, ssnOut, deliv, opens>> /\ PrSame /\ NoFault
 
 \* PR-SCTP (RFC 3758), update_advanced_peer_ack_point + create_forward_tsn_chunk: the message at
@@ -430,20 +457,20 @@ Drop(d) ==
   /\ wire' = [wire EXCEPT ![d] = Tail(@)]
   /\ faults' = Append(faults, FaultRec(d, Head(wire[d]), "drop", NoAfter))
   /\ budget' = budget - 1
-  /\ UNCHANGED <<net, held, lastDel, cnt>> /\ ProtoSame /\ UNCHANGED hole
+  /\ UNCHANGED <<net, held, lastDel, cnt>> /\ ProtoSame /\ UNCHANGED <<hole, outage>>
 Dup(d) ==
   /\ NetMode = "fifo" /\ budget > 0 /\ wire[d] # <<>>
   /\ wire' = [wire EXCEPT ![d] = <<Head(@)>> \o @]
   /\ faults' = Append(faults, FaultRec(d, Head(wire[d]), "dup", NoAfter))
   /\ budget' = budget - 1
-  /\ UNCHANGED <<net, held, lastDel, cnt>> /\ ProtoSame /\ UNCHANGED hole
+  /\ UNCHANGED <<net, held, lastDel, cnt>> /\ ProtoSame /\ UNCHANGED <<hole, outage>>
 \* take the head aside (delay / reorder) or keep a copy aside (late duplicate)
 Hold(d, copy) ==
   /\ NetMode = "fifo" /\ budget > 0 /\ wire[d] # <<>> /\ held[d] = {}
   /\ held' = [held EXCEPT ![d] = {[p |-> Head(wire[d]), kind |-> IF copy THEN "duplate" ELSE "hold"]}]
   /\ wire' = IF copy THEN wire ELSE [wire EXCEPT ![d] = Tail(@)]
   /\ budget' = budget - 1
-  /\ UNCHANGED <<net, lastDel, cnt, faults>> /\ ProtoSame /\ UNCHANGED hole
+  /\ UNCHANGED <<net, lastDel, cnt, faults>> /\ ProtoSame /\ UNCHANGED <<hole, outage>>
 Release(d) ==
   /\ NetMode = "fifo" /\ held[d] # {}
   /\ lastDel[d].k # "NONE"                       \* something overtook it, otherwise nothing happened
@@ -452,7 +479,7 @@ Release(d) ==
         /\ wire' = [wire EXCEPT ![d] = <<h.p>> \o @]
         /\ faults' = Append(faults, FaultRec(d, h.p, h.kind, lastDel[d]))
   /\ held' = [held EXCEPT ![d] = {}]
-  /\ UNCHANGED <<net, lastDel, cnt, budget>> /\ ProtoSame /\ UNCHANGED hole
+  /\ UNCHANGED <<net, lastDel, cnt, budget>> /\ ProtoSame /\ UNCHANGED <<hole, outage>>
 
 \* persistent loss by content: from now on every transmission of this DATA chunk is lost (one unit of
 \* budget).  Only chunks of partially reliable channels: abandonment is what resolves it.
@@ -463,19 +490,36 @@ Blackhole(d) ==
        /\ hole' = [hole EXCEPT ![d] = @ \cup {RelTsn(p)}]
        /\ faults' = Append(faults, FaultRec(d, p, "dropall", NoAfter))
   /\ budget' = budget - 1
-  /\ UNCHANGED <<net, wire, held, lastDel, cnt>> /\ ProtoSame
+  /\ UNCHANGED <<net, wire, held, lastDel, cnt, outage>> /\ ProtoSame
 \* the network swallows a holed packet (no budget: the fault was paid for once)
 HoleDrop(d) ==
-  /\ NetMode = "fifo" /\ wire[d] # <<>> /\ Holed(Head(wire[d]))
+  /\ NetMode = "fifo" /\ wire[d] # <<>> /\ Holed(Head(wire[d])) /\ ~EndsOutage(Head(wire[d]))
   /\ wire' = [wire EXCEPT ![d] = Tail(@)]
-  /\ UNCHANGED <<net, held, lastDel, cnt, faults, budget, hole>> /\ ProtoSame
+  /\ UNCHANGED <<net, held, lastDel, cnt, faults, budget, hole, outage>> /\ ProtoSame
 
-Fault == \E d \in Side : Drop(d) \/ Dup(d) \/ Hold(d, TRUE) \/ Hold(d, FALSE) \/ Release(d) \/ Blackhole(d)
+\* a blackout of the path (one unit of budget): from this first transmission on every DATA packet of the
+\* direction is lost, until the sender's timer brings back the chunk it started with
+Outage(d) ==
+  /\ NetMode = "fifo" /\ budget > 0 /\ wire[d] # <<>> /\ ~outage[d].on
+  /\ LET p == Head(wire[d]) IN
+       /\ p.k = "DATA" /\ p.o = 1 /\ ~Holed(p)
+       /\ outage' = [outage EXCEPT ![d] = [on |-> TRUE, t |-> RelTsn(p)]]
+       /\ faults' = Append(faults, FaultRec(d, p, "outage", NoAfter))
+  /\ budget' = budget - 1
+  /\ UNCHANGED <<net, wire, held, lastDel, cnt, hole>> /\ ProtoSame
+
+Fault == \E d \in Side : Drop(d) \/ Dup(d) \/ Hold(d, TRUE) \/ Hold(d, FALSE) \/ Release(d) \/ Blackhole(d) \/ Outage(d)
+
+\* the retransmission that ends an outage reaches the head of the wire: the path is back
+OutageEnds(d) ==
+  /\ NetMode = "fifo" /\ wire[d] # <<>> /\ EndsOutage(Head(wire[d]))
+  /\ outage' = [outage EXCEPT ![d].on = FALSE]
+  /\ UNCHANGED <<net, wire, held, lastDel, cnt, faults, budget, hole>> /\ ProtoSame
 
 Proto ==
   \/ SendInit \/ T1Expire
-  \/ \E d \in Side : HoleDrop(d)
-  \/ \E s \in Side : AppSend(s) \/ TransmitNew(s) \/ Rtx(s) \/ Abandon(s) \/ Advance(s) \/ ResendFwd(s) \/ SackTimer(s)
+  \/ \E d \in Side : HoleDrop(d) \/ OutageEnds(d)
+  \/ \E s \in Side : AppSend(s) \/ TransmitNew(s) \/ T3Expire(s) \/ Rtx(s) \/ Abandon(s) \/ Advance(s) \/ ResendFwd(s) \/ SackTimer(s)
   \/ \E s \in Side : \E p \in Avail(s) :
         \/ RecvData(s, p) \/ RecvSack(s, p) \/ RecvFwd(s, p)
         \/ (s = "B" /\ (RecvInit(p) \/ RecvCookieEcho(p)))
